@@ -11,6 +11,13 @@ CLAUSE = ("dvb_demux.c: (RF-PURE) no function writes an object with static stora
           "unit's bytes are used only after `p + data_unit_length <= end`, the coroutine copy is bounded by the caller's "
           "max_lines; (RF-CORR) after a TS continuity mismatch that is not a repeated packet the expected counter is re-synchronised "
           "on every path; a frame error reaches reset_frame before the next packet is parsed.")
+CLAUSE = CLAUSE + (" (RF-IVL/RF-CUR) every subscript of a constant-size array and every tracked cursor dereference in dvb_demux.c "
+                   "is in bounds under the function's guards (named trusted sites excepted).")
+SWEEP_TRUSTED = {
+    "RF-IVL:lofp_to_line:field_start[][local]": "*field was assigned !(lofp & (1 << 5)) two statements earlier: 0 or 1",
+    "RF-IVL:line_address:raw_start[local]": "field is the out-parameter lofp_to_line() just wrote: 0 or 1",
+    "RF-IVL:line_address:raw_count[local]": "field is the out-parameter lofp_to_line() just wrote: 0 or 1",
+}
 NOT_DECIDED = ("partition invariance as such (that feeding byte by byte yields identical frames), 'all but the first frame after "
                "damage are delivered', PES/TS header field semantics.")
 
@@ -47,7 +54,8 @@ def run(ctx, run):
     _continuity(ctx, run, P.need("demux_ts_packet", UNIT))
     _frame_reset(ctx, run)
     _reset_complete(ctx, run, fs)
-
+    from .. import sweep
+    sweep.run(ctx, run, [UNIT], SWEEP_TRUSTED, 20, 1)
 
 def _underflow(ctx, run, f):
     an = ctx.analysis(f, False)
